@@ -45,8 +45,12 @@ class CkptWorld:
     """The ``programs.ENV`` object for checkpointed runs; records what the generated user code does across instances."""
 
     def __init__(self, restore_at: Sequence[int], resume_script: Sequence[Any], medium: str, horizon: int = 3000,
-                 gate_values: Optional[Callable[[int], Any]] = None, exit_restore_at: Sequence[int] = ()) -> None:
+                 gate_values: Optional[Callable[[int], Any]] = None, exit_restore_at: Sequence[int] = (),
+                 foreign_loop: bool = False) -> None:
         self.restore_at = set(restore_at)
+        # restore while *another* loop is the current one: the loop of the restored process is the one handed over in the
+        # load context, whatever loop happens to be current where the checkpoint is loaded
+        self.foreign_loop = foreign_loop
         # checkpoints taken in the *exit* hook of the k-th RUNNING state (the step has returned, the state change has not
         # happened yet): restoring such a checkpoint legitimately runs that step again
         self.exit_restore_at = set(exit_restore_at)
@@ -150,9 +154,22 @@ class CkptWorld:
             self.loop = None
 
     def _restore(self) -> Any:
-        loop = self._new_loop()
         bundle, self.snapshot = self.snapshot, None
-        proc = bundle.unbundle(persistence.LoadSaveContext(loop=loop))
+        if self.foreign_loop:
+            if self.loop is not None:
+                self.loop.shutdown()
+            decoy = VLoop(horizon=self.horizon)
+            decoy.install()
+            loop = self.loop = VLoop(horizon=self.horizon)
+            self.gates = {}
+            try:
+                proc = bundle.unbundle(persistence.LoadSaveContext(loop=loop))
+            finally:
+                decoy.shutdown()
+            loop.install()
+        else:
+            loop = self._new_loop()
+            proc = bundle.unbundle(persistence.LoadSaveContext(loop=loop))
         self.restores += 1
         self.instances += 1
         self.attach(proc)
